@@ -14,10 +14,15 @@ extern "C" {
 namespace sim {
 namespace {
 
+// a 32-byte value that is not a secret key because it is too large: 2^256-1, exactly n, n+1
+static void fill_over(uint8_t *b, int sel) {
+    if (sel % 3 == 0) { memset(b, 0xff, 32); return; }
+    ref::FN.m.to_be(b); if (sel % 3 == 2) b[31] += 1;
+}
 enum GenFault { G_NONE, G_ZERO_RAND, G_SK_ZERO, G_SK_OVER, G_ZERO_KEYOBJ, G_BAD_CACHE, G_KEYPAIR_SK_DAMAGED, G_NFAULTS };
-enum SignFault { S_NONE, S_OTHER_KEY, S_NEG_KEY, S_ZERO_KEYPAIR, S_NULL_OUT, S_BAD_CACHE, S_BAD_SESSION, S_ZEROED_SLOT, S_NULL_KEYPAIR, S_NULL_CACHE, S_NULL_SESSION, S_STATIC_CTX, S_KEYPAIR_SK_ZEROED, S_KEYPAIR_SK_OVER, S_NFAULTS };
+enum SignFault { S_NONE, S_OTHER_KEY, S_NEG_KEY, S_ZERO_KEYPAIR, S_NULL_OUT, S_BAD_CACHE, S_BAD_SESSION, S_ZEROED_SLOT, S_NULL_KEYPAIR, S_NULL_CACHE, S_NULL_SESSION, S_STATIC_CTX, S_KEYPAIR_SK_ZEROED, S_KEYPAIR_SK_OVER, S_ENDO_KEY, S_ENDO2_KEY, S_NFAULTS };
 const char *const GFN[] = {"ok", "zero_secrand", "seckey_zero", "seckey_overflow", "zeroed_key_object", "bad_cache", "keypair_secret_half_damaged"};
-const char *const SFN[] = {"ok", "other_keypair", "negated_keypair", "zeroed_keypair", "null_output", "bad_cache", "bad_session", "zeroed_slot", "null_keypair", "null_cache", "null_session", "static_context", "keypair_secret_half_erased", "keypair_secret_half_overflows"};
+const char *const SFN[] = {"ok", "other_keypair", "negated_keypair", "zeroed_keypair", "null_output", "bad_cache", "bad_session", "zeroed_slot", "null_keypair", "null_cache", "null_session", "static_context", "keypair_secret_half_erased", "keypair_secret_half_overflows", "lambda_keypair", "lambda2_keypair"};
 
 bool all_zero(const void *p, size_t n) { const uint8_t *b = (const uint8_t *)p; for (size_t i = 0; i < n; i++) if (b[i]) return false; return true; }
 
@@ -86,11 +91,14 @@ static void nonce_api_execute(const Plan &p, const ExecOpts &, Result &r) {
     L(secp256k1_context_set_illegal_callback(ctx, watching_illegal_cb, NULL));
     int nslots = (int)std::max<int64_t>(1, std::min<int64_t>(3, p.c("slots", 1)));
     // keys 0,1 and key 2 = negation of key 0 (same x coordinate, other y)
-    uint8_t sk[3][32]; secp256k1_keypair kp[3]; secp256k1_pubkey pk[3];
+    // keys 3, 4 = lambda * key 0 and lambda^2 * key 0 (lambda: the cube root of unity mod n): public keys (beta x, y), (beta^2 x, y) - same y
+    uint8_t sk[5][32]; secp256k1_keypair kp[5]; secp256k1_pubkey pk[5];
     bool setup_ok = true;
     for (int i = 0; i < 2; i++) { fresh32(sk[i]); sk[i][0] &= 0x7f; sk[i][31] |= 1; }
     { ref::U256 v = ref::FN.neg(ref::U256::from_be(sk[0])); v.to_be(sk[2]); }
-    for (int i = 0; i < 3; i++) { setup_ok = setup_ok && L01(secp256k1_keypair_create(ctx, &kp[i], sk[i])); setup_ok = setup_ok && L01(secp256k1_keypair_pub(ctx, &pk[i], &kp[i])); }
+    { ref::U256 lam = ref::U256::from_be(ref::unhex("5363ad4cc05c30e0a5261c028812645a122e22ea20816678df02967c1b23bd72").data());
+      ref::U256 v = ref::FN.mul(lam, ref::U256::from_be(sk[0])); v.to_be(sk[3]); ref::FN.mul(lam, v).to_be(sk[4]); }
+    for (int i = 0; i < 5; i++) { setup_ok = setup_ok && L01(secp256k1_keypair_create(ctx, &kp[i], sk[i])); setup_ok = setup_ok && L01(secp256k1_keypair_pub(ctx, &pk[i], &kp[i])); }
     const secp256k1_pubkey *pks[2] = {&pk[0], &pk[1]};
     secp256k1_musig_keyagg_cache cache, bad_cache;
     memset(&bad_cache, 0, sizeof bad_cache);
@@ -130,13 +138,13 @@ static void nonce_api_execute(const Plan &p, const ExecOpts &, Result &r) {
             if (f == G_ZERO_RAND) memset(secrand, 0, 32);
             uint8_t skarg[32]; memcpy(skarg, sk[key], 32);
             if (f == G_SK_ZERO) memset(skarg, 0, 32);
-            if (f == G_SK_OVER) memset(skarg, 0xff, 32);
+            if (f == G_SK_OVER) fill_over(skarg, opno + mask);
             secp256k1_pubkey pkarg = pk[key]; secp256k1_keypair kparg = kp[key];
             if (f == G_ZERO_KEYOBJ) { memset(&pkarg, 0, sizeof pkarg); memset(&kparg, 0, sizeof kparg); }
             if (f == G_KEYPAIR_SK_DAMAGED) {
                 // the keypair object was damaged where it was kept: the secret half reads back erased, the public half is intact
-                if (api == 0) f = G_SK_OVER; else memset(kparg.data, (mask & 1) ? 0xff : 0x00, 32);
-                if (api == 0) memset(skarg, 0xff, 32);
+                if (api == 0) f = G_SK_OVER; else { if (mask & 1) fill_over(kparg.data, opno + (mask >> 1)); else memset(kparg.data, 0x00, 32); }
+                if (api == 0) fill_over(skarg, opno + mask);
             }
             const secp256k1_musig_keyagg_cache *carg = f == G_BAD_CACHE ? &bad_cache : ((mask & 1) ? &cache : NULL);
             const unsigned char *marg = (mask & 2) ? msg[0] : NULL;
@@ -174,11 +182,12 @@ static void nonce_api_execute(const Plan &p, const ExecOpts &, Result &r) {
             int kidx = key;
             if (f == S_OTHER_KEY) kidx = 1 - key;
             if (f == S_NEG_KEY) kidx = key == 0 ? 2 : 1 - key;   // only key 0 has a negated twin in the pool
+            if (f == S_ENDO_KEY || f == S_ENDO2_KEY) kidx = key == 0 ? (f == S_ENDO_KEY ? 3 : 4) : 1 - key;   // likewise its endomorphism siblings
             secp256k1_keypair kparg = kp[kidx];
             if (f == S_ZERO_KEYPAIR) memset(&kparg, 0, sizeof kparg);
             // the keypair was damaged where it was kept: the public half is intact (and still the key the nonce is bound to), the secret half is not a key
             if (f == S_KEYPAIR_SK_ZEROED) memset(kparg.data, 0, 32);
-            if (f == S_KEYPAIR_SK_OVER) memset(kparg.data, 0xff, 32);
+            if (f == S_KEYPAIR_SK_OVER) fill_over(kparg.data, opno);
             secp256k1_musig_partial_sig out, out0; memset(&out, 0x77, sizeof out); out0 = out;
             secp256k1_musig_partial_sig *volatile outp = f == S_NULL_OUT ? NULL : &out;
             const secp256k1_musig_keyagg_cache *volatile carg = f == S_BAD_CACHE ? &bad_cache : (f == S_NULL_CACHE ? NULL : &cache);
